@@ -1,1 +1,74 @@
-From PV Require Import Lib.GoInt C14.Model.
+(* C14 — Dates written by pdfcpu are valid and read back to the same instant.
+   Property theorems only; each is closed by an exact lemma and followed by Print Assumptions.
+
+   Vocabulary (coq/C14/Model.v):
+     civil            = (year, month, day, hour, minute, second, zone offset in seconds): the civil
+                        reading of a time.Time (package time is trusted for civil <-> instant);
+     valid_civil t    = month 1..12, day 1..days_in_month, hour 0..23, minute, second 0..59
+                        (what package time guarantees for any time.Time);
+     in_scope t       = 0 <= year <= 9999 /\ valid_civil t /\ offset is a whole number of minutes
+                        (Z.rem off 60 = 0) /\ -86400 < off < 86400;
+     DateString       = model of types.DateString; DateTime = model of types.DateTime(s, false);
+     iso_string ...   = D:YYYYMMDDHHmmSSOHH'mm' built from zero-padded decimal fields;
+     iso_full_b       = stand-alone recogniser of that form with every field in range. *)
+From PV Require Import Lib.GoInt C14.Model C14.Proofs.
+Open Scope Z_scope.
+
+(* Strict parsing of the written string yields the same civil time with the same offset, hence
+   (package time) the same instant. *)
+Theorem C14_date_roundtrip : forall t, in_scope t -> DateTime (DateString t) = DOk t.
+Proof. exact date_roundtrip. Qed.
+Print Assumptions C14_date_roundtrip.
+
+(* The written string is exactly D:YYYYMMDDHHmmSSOHH'mm' for the fields of t, with O in {+,-},
+   zone hours 0..23, zone minutes 0..59 denoting t's offset. *)
+Theorem C14_datestring_valid : forall t, in_scope t ->
+  exists sg zh zm,
+    DateString t = iso_string (cy t) (cmo t) (cd t) (ch t) (cmi t) (cs t) sg zh zm /\
+    (sg = b_plus \/ sg = b_minus) /\ 0 <= zh <= 23 /\ 0 <= zm <= 59 /\
+    signed_off sg zh zm = coff t.
+Proof. exact datestring_valid. Qed.
+Print Assumptions C14_datestring_valid.
+
+(* ... and it is accepted by the stand-alone ISO 32000 recogniser (which the harness compares with
+   its own validator on written and on mutated strings). *)
+Theorem C14_datestring_iso_full : forall t, in_scope t -> iso_full_b (DateString t) = true.
+Proof. exact datestring_iso_full. Qed.
+Print Assumptions C14_datestring_iso_full.
+
+(* Every full-form ISO date string with fields in range is accepted by the strict parser with the
+   value it denotes (not only those DateString produces). *)
+Theorem C14_iso_accepted : forall y mo d h mi s sg zh zm,
+  0 <= y <= 9999 -> 1 <= mo <= 12 -> 1 <= d <= days_in_month y mo ->
+  0 <= h <= 23 -> 0 <= mi <= 59 -> 0 <= s <= 59 ->
+  sg = b_plus \/ sg = b_minus -> 0 <= zh <= 23 -> 0 <= zm <= 59 ->
+  DateTime (iso_string y mo d h mi s sg zh zm) = DOk (Civil y mo d h mi s (signed_off sg zh zm)).
+Proof. exact DateTime_iso. Qed.
+Print Assumptions C14_iso_accepted.
+
+(* Different in-scope times are written differently. *)
+Theorem C14_datestring_injective : forall t1 t2, in_scope t1 -> in_scope t2 ->
+  DateString t1 = DateString t2 -> t1 = t2.
+Proof. exact datestring_injective. Qed.
+Print Assumptions C14_datestring_injective.
+
+(* The scope bounds are necessary in the model: five-digit years, offsets of 24h and
+   offsets with seconds do not round-trip. *)
+Theorem C14_scope_tight :
+  DateTime (DateString (Civil 10000 1 1 0 0 0 0)) <> DOk (Civil 10000 1 1 0 0 0 0) /\
+  DateTime (DateString (Civil 2024 1 1 0 0 0 86400)) <> DOk (Civil 2024 1 1 0 0 0 86400) /\
+  DateTime (DateString (Civil 2024 1 1 0 0 0 (-86400))) <> DOk (Civil 2024 1 1 0 0 0 (-86400)) /\
+  DateTime (DateString (Civil 2024 1 1 0 0 0 30)) <> DOk (Civil 2024 1 1 0 0 0 30).
+Proof. exact scope_tight. Qed.
+Print Assumptions C14_scope_tight.
+
+(* non-vacuity: the scope is inhabited at its corners (year 0 / 9999, leap day, +-23:59) *)
+Example C14_nonvacuous :
+  in_scope (Civil 0 1 1 0 0 0 (-86340)) /\ in_scope (Civil 9999 12 31 23 59 59 86340) /\
+  in_scope (Civil 2024 2 29 12 0 0 (-1800)) /\ ~ in_scope (Civil 2023 2 29 12 0 0 0) /\
+  DateString (Civil 5 2 28 23 59 58 (-1800)) =
+    [68; 58; 48; 48; 48; 53; 48; 50; 50; 56; 50; 51; 53; 57; 53; 56; 45; 48; 48; 39; 51; 48; 39]%N.
+Proof.
+  unfold in_scope, valid_civil. cbn. repeat split; try (intro; discriminate); try discriminate.
+  intros (_ & (_ & (_ & Hd) & _) & _). apply Hd. reflexivity.
+Qed.
